@@ -383,7 +383,8 @@ def run(chk, tier, seed, replay):
                     actual.add((norm_ty(p[0]), p[1].strip().split("::")[-1].strip()))
         required = {(norm_ty(tys[i - 1]), tr) for i, tr in doc}
         missing = required - actual
-        extra = {x for x in actual - required if any(pp in x[0].replace("'static", "") for pp in params)}
+        # (a type without type parameters needs no predicate at all: `i32: Display` in its where-clause is excess too)
+        extra = {x for x in actual - required if (not params) or any(pp in x[0].replace("'static", "") for pp in params)}
         if missing:
             chk.deviation(k, f"bounds missing from the impl: {sorted(missing)} (a formatted generic field is left unbounded)",
                           case={"item": item}, expected=sorted(required), observed=sorted(actual),
